@@ -42,6 +42,7 @@ const (
 
 // OriginCall is what the fake origin received.
 type OriginCall struct {
+	ClockEnd   int64 // virtual clock when the origin handed over its answer: pike cannot have obtained the response earlier
 	ClockBegin int64
 	Serial     int64
 	Tid        int
@@ -270,6 +271,7 @@ func (e *Env) proxy(name string, c *elton.Context) error {
 	vsched.Yield(ResOriginStart)
 	resp := e.Respond(call)
 	vsched.Yield(ResOriginRespond)
+	call.ClockEnd = vsched.PeekClock()
 	e.Log(Event{Kind: "origin-end", Call: call})
 	if resp.Panic {
 		panic("origin panic (scripted)")
